@@ -114,6 +114,23 @@ Proof.
 Qed.
 Print Assumptions C04_acc_indep.
 
+(* end to end, as _build_token_cooccurrence_matrix composes the pieces: the documents are cut into chunks by
+   _generate_chunk_boundaries, every chunk runs its own accumulator (any capacity >= 20 and min-stack length per chunk:
+   `_coo_sizes`, `coo_initial_memory`, growth history), the per-chunk matrices are added.  For every n_threads, every
+   threshold, every choice of buffer sizes and any per-document event generator the sum is the exact sum by key of
+   all events: the matrix does not depend on n_threads, _coo_sizes or COO_QUICKSORT_LIMIT. *)
+Theorem C04_sizes_threads_irrelevant :
+  forall (doc : Type) (events_of_doc : doc -> list entry) docs sizes n_threads limit (capf mlenf : Z * Z -> Z) k,
+  length sizes = length docs -> 1 <= limit -> (forall ch, 20 <= capf ch) ->
+  Forall (fun e => 0 <= e_key e) (events_of doc events_of_doc docs) ->
+  (forall ch, 2 * zlen (events_of doc events_of_doc docs) + 2 < 2 ^ (mlenf ch - 1)) ->
+  fold_right Z.add 0
+    (map (fun ch => acc_matrix limit (capf ch) (mlenf ch) (events_of doc events_of_doc (chunk_docs docs ch)) k)
+         (chunk_boundaries sizes n_threads))
+  = sumby (events_of doc events_of_doc docs) k.
+Proof. exact end_to_end. Qed.
+Print Assumptions C04_sizes_threads_irrelevant.
+
 (* the hypotheses are needed: below capacity 20 the model (like the code) overruns its buffer, and a min stack that
    is too short for the number of flushes is overrun as well *)
 Theorem C04_small_capacity_refuted : exists evs, run 65536 19 10 evs = OOB S_append_write.
